@@ -46,12 +46,21 @@ def _occ(el):
 def canon_real_schema(docs, nsmap):
     """{prefix: <xs:schema> element} -> canonical dict (what the model's `gen` is compared with)"""
     from lxml import etree
-    out = {'simple': {}, 'complex': {}, 'elements': {}, 'imports': set()}
+    out = {'simple': {}, 'complex': {}, 'elements': {}, 'imports': set(), 'order': {}, 'raw': []}
     x = lambda n: '{%s}%s' % (XS, n)
+
+    def qn(el, v):
+        k = _qn(el, v)
+        if k[0] != XS:
+            out['raw'].append((tns, tuple(k), v))       # the QName as written, for the prefix check
+        return k
     for pref, root in docs.items():
         tns = root.get('targetNamespace')
         if root.get('elementFormDefault') != 'qualified' or nsmap[pref] != tns:
             raise Unmodelled('schema header')
+        if tns in out['order']:
+            raise Unmodelled('two documents for one namespace')
+        out['order'][tns] = [el.get('namespace') for el in root if el.tag == x('import')]
         for el in root:
             if not isinstance(el.tag, str):
                 continue
@@ -61,7 +70,7 @@ def canon_real_schema(docs, nsmap):
                 (r,) = list(el)
                 if r.tag != x('restriction'):
                     raise Unmodelled('simpleType child %s' % r.tag)
-                bns, base = _qn(r, r.get('base'))
+                bns, base = qn(r, r.get('base'))
                 if bns != XS:
                     raise Unmodelled('restriction of a non-builtin')
                 facets = []
@@ -80,7 +89,7 @@ def canon_real_schema(docs, nsmap):
                     (ext,) = list(kids[0])
                     if ext.tag != x('extension'):
                         raise Unmodelled('complexContent child')
-                    base = _qn(ext, ext.get('base'))
+                    base = qn(ext, ext.get('base'))
                     seqp = ext
                     kids = list(ext)
                 if len(kids) > 1 or (kids and kids[0].tag != x('sequence')):
@@ -89,13 +98,13 @@ def canon_real_schema(docs, nsmap):
                 for p in (list(kids[0]) if kids else []):
                     if p.tag != x('element') or set(p.attrib) - {'name', 'type', 'minOccurs', 'maxOccurs', 'nillable'}:
                         raise Unmodelled('particle %s %r' % (p.tag, dict(p.attrib)))
-                    parts.append([p.get('name'), _qn(p, p.get('type')), _occ(p)])
+                    parts.append([p.get('name'), qn(p, p.get('type')), _occ(p)])
                 key = (tns, el.get('name'))
                 if key in out['complex']:
                     raise Unmodelled('duplicate complexType')
                 out['complex'][key] = [base, parts]
             elif el.tag == x('element'):
-                out['elements'][(tns, el.get('name'))] = _qn(el, el.get('type'))
+                out['elements'][(tns, el.get('name'))] = qn(el, el.get('type'))
             else:
                 raise Unmodelled('global %s' % el.tag)
     return out
@@ -136,6 +145,33 @@ def schema_diff(real, model):
     return diffs
 
 
+def set_diff(real, mset):
+    """the set of documents: one per namespace, <xs:import> order, QNames as written (model: Schema.docs / qnameOf)"""
+    diffs = []
+    mdocs = dict((d[0], d[1]) for d in mset['docs'])
+    if len(mdocs) != len(mset['docs']):
+        diffs.append(('docs', 'model lists a namespace twice', None, mset['docs']))
+    if real['order'] != mdocs:
+        diffs.append(('documents/import-order', None, real['order'], mdocs))
+    want = {}
+    for doc, key, q, rt in mset['qnames']:
+        want[(doc, tuple(key))] = q
+        if not rt:
+            diffs.append(('qname-roundtrip', [doc, key], None, q))
+    for doc, key, raw in real['raw']:
+        if want.get((doc, key), 'missing') != raw:
+            diffs.append(('qname', [doc, list(key)], raw, want.get((doc, key), 'missing')))
+    have = set((doc, key) for doc, key, _ in real['raw'])
+    for dk in want:
+        if dk not in have:
+            diffs.append(('qname', list(dk), None, want[dk]))
+    for ns, imps in real['order'].items():
+        for i in imps:
+            if i not in real['order']:
+                diffs.append(('import-without-document', ns, i, None))
+    return diffs
+
+
 def real_schema(app):
     from spyne.interface.xml_schema import XmlSchema
     sch = XmlSchema(app.interface)
@@ -159,10 +195,12 @@ def app_json(b, app):
     """input of the model's generator: the introspected interface + names/namespaces of the Enum classes in use"""
     from spyne.model.enum import EnumBase
     enums = {}
+    real_schema(app)        # prefixes are handed out (s0, s1, ...) while the documents are built
     for key, cls in sorted(app.interface.classes.items()):
         if key.startswith('{') and isinstance(cls, type) and issubclass(cls, EnumBase):
             enums[tuple(cls.__values__)] = [list(cls.__values__), cls.get_namespace(), cls.get_type_name()]
-    return {'iface': b.iface, 'enums': [enums[k] for k in sorted(enums)], 'values': values_table(b, app)}
+    return {'iface': b.iface, 'enums': [enums[k] for k in sorted(enums)], 'values': values_table(b, app),
+            'prefixes': sorted([ns, p] for ns, p in app.interface.prefmap.items())}
 
 
 # ====================================================================================== `values=` on non-string primitives
@@ -347,7 +385,45 @@ def measure_facts06():
     ok, why = compile_real(app)
     f['mergeBounds'] = (facets == [['minInclusive', '3'], ['maxExclusive', '10']] and ok)
     f['_merge_observed'] = {'facets_of_W_vType': facets, 'schema_compiles': ok, 'error': None if ok else why}
+    # behaviour switch choiceInPlace: one(g), two(g), punk -> is the <xs:choice> before `punk`?
+    u = choice_witness_universe()
+    with warnings.catch_warnings():
+        warnings.simplefilter('ignore')
+        b = build_classes_x(u)
+        app, _ = xb.make_app(b, 'xml', None)
+    sch, docs = real_schema(app)
+    seqs = [[etree_local_name(e) for e in seq] for d in docs.values() for ct in d.iter('{%s}complexType' % XS)
+            if ct.get('name') == 'W' for seq in ct.iter('{%s}sequence' % XS)]
+    f['choiceInPlace'] = seqs == [['choice', 'element']]
+    f['_choice_observed'] = {'sequence_of_W': seqs}
+    # behaviour switch dataTypeDefined: XmlData(Integer8(ge=3))
+    u = xmldata_witness_universe()
+    with warnings.catch_warnings():
+        warnings.simplefilter('ignore')
+        b = build_classes_x(u)
+        app, _ = xb.make_app(b, 'xml', None)
+    sch, docs = real_schema(app)
+    names = [st.get('name') for d in docs.values() for st in d.iter('{%s}simpleType' % XS)]
+    ok, why = compile_real(app)
+    f['dataTypeDefined'] = ('Money_amount' + const.TYPE_SUFFIX in names) and ok
+    f['_data_observed'] = {'simple_types': names, 'schema_compiles': ok, 'error': None if ok else why}
     return f
+
+
+def etree_local_name(e):
+    from lxml import etree
+    return etree.QName(e).localname
+
+
+def choice_witness_universe():
+    """W(one = Integer(xml_choice_group='numbers'), two = Integer(xml_choice_group='numbers'), punk = Unicode): the class of
+    spyne's own test_choice_tag"""
+    occ = lambda **kw: dict({'nillable': True, 'min': 0, 'max': 1}, **kw)
+    i = lambda: {'k': 'prim', 'p': _prim('int'), 'o': occ(choice='numbers')}
+    s = {'k': 'prim', 'p': {'t': 'str', 'min': 0, 'max': None, 'pat': None, 'values': []}, 'o': occ()}
+    return {'tns': 'urn:w8', 'idx': 6998, 'classes': [{'name': 'W', 'ns': 'urn:w8', 'base': None, 'depth': 0,
+                                                     'own': [['one', i()], ['two', i()], ['punk', s]]}],
+            'methods': [{'name': 'm0', 'args': [['a0', {'k': 'ref', 'cls': 'W', 'o': occ()}]], 'rets': []}]}
 
 
 def merge_witness_universe():
@@ -426,13 +502,15 @@ def facts06 : Facts06 where
   qualified := %s
   clampFacets := %s
   mergeBounds := %s
+  choiceInPlace := %s
+  dataTypeDefined := %s
 
 end SpyneModel.Generated
 ''' % tuple([_lean_str(f[k]) for k in ('typeSuffix', 'arrayPrefix', 'arraySuffix', 'parentSuffix')] +
             [_lean_str(ints[k]) for k in ('unbounded', 'i8', 'i16', 'i32', 'i64', 'u8', 'u16', 'u32', 'u64')] +
             [_lean_str(f[k]) for k in ('boolName', 'unicodeName', 'dateName', 'timeName', 'dateTimeName', 'durationName')] +
             [_lean_str(f['bytesName'][k]) for k in ('base64', 'hex', 'urlsafe')] +
-            [str(bool(f['qualified'])).lower(), str(bool(f['clampFacets'])).lower(), str(bool(f['mergeBounds'])).lower()])
+            [str(bool(f[k])).lower() for k in ('qualified', 'clampFacets', 'mergeBounds', 'choiceInPlace', 'dataTypeDefined')])
 
 
 # ====================================================================================== emitting documents with the real code
@@ -518,7 +596,7 @@ def node_leaves(n):
 def match_children(b, ty, node):
     """pair the children of a node with their declared types: [(child, child_ty or None)]"""
     if ty['k'] == 'obj':
-        fields = dict((k, t) for k, t in ty['fields'])
+        fields = dict((k, t) for k, t in ty['fields'] if not t.get('mk'))
         return [(c, fields.get(c['n'])) for c in node['c']]
     if ty['k'] == 'arr':
         return [(c, ty['elem']) for c in node['c']]
@@ -734,7 +812,7 @@ def mutate(rng, b, root_ty, root):
         return doc, 'text-in-complex'
     if op == 'add-optional' and ty['k'] == 'obj':
         present = set(c['n'] for c in kids)
-        missing = [(i, k, t) for i, (k, t) in enumerate(ty['fields']) if k not in present]
+        missing = [(i, k, t) for i, (k, t) in enumerate(ty['fields']) if k not in present and not t.get('mk')]
         if missing:
             i, k, t = rng.choice(missing)
             v = xb.gen_field(rng, t, none_p=0.0)
@@ -981,12 +1059,367 @@ def cross_ns_universe(rng, idx):
     return u
 
 
+# ====================================================================================== attributes / XmlData / choice groups
+def canon_real_schema_x(docs, nsmap):
+    """like canon_real_schema, for documents with <xs:attribute>, <xs:simpleContent> and <xs:choice>:
+    complex[key] = [base, items of the own sequence, own attributes, simpleContent base]"""
+    from lxml import etree
+    out = {'simple': {}, 'complex': {}, 'elements': {}, 'imports': set()}
+    x = lambda n: '{%s}%s' % (XS, n)
+
+    def particle(p):
+        if p.tag != x('element') or set(p.attrib) - {'name', 'type', 'minOccurs', 'maxOccurs', 'nillable'}:
+            raise Unmodelled('particle %s %r' % (p.tag, dict(p.attrib)))
+        return [p.get('name'), _qn(p, p.get('type')), _occ(p)]
+
+    def attribute(a):
+        if set(a.attrib) - {'name', 'type', 'use'} or a.get('use') not in (None, 'required'):
+            raise Unmodelled('attribute %r' % dict(a.attrib))
+        return [a.get('name'), _qn(a, a.get('type')), a.get('use') == 'required']
+    for pref, root in docs.items():
+        tns = root.get('targetNamespace')
+        if root.get('elementFormDefault') != 'qualified' or nsmap[pref] != tns or root.get('attributeFormDefault') not in (None, 'unqualified'):
+            raise Unmodelled('schema header')
+        for el in root:
+            if not isinstance(el.tag, str):
+                continue
+            if el.tag == x('import'):
+                out['imports'].add((tns, el.get('namespace')))
+            elif el.tag == x('simpleType'):
+                (r,) = list(el)
+                bns, base = _qn(r, r.get('base'))
+                if r.tag != x('restriction') or bns != XS:
+                    raise Unmodelled('simpleType')
+                facets = []
+                for f in r:
+                    name = etree.QName(f).localname
+                    v = f.get('value')
+                    facets.append([name, cps(v) if name in ('enumeration', 'pattern') else str(int(v))])
+                key = (tns, el.get('name'))
+                if key in out['simple']:
+                    raise Unmodelled('duplicate simpleType')
+                out['simple'][key] = [base, facets]
+            elif el.tag == x('complexType'):
+                base, data, holder = None, None, el
+                kids = list(el)
+                if kids and kids[0].tag == x('complexContent'):
+                    (ext,) = list(kids[0])
+                    if ext.tag != x('extension') or len(kids) != 1:
+                        raise Unmodelled('complexContent')
+                    base, holder = _qn(ext, ext.get('base')), ext
+                    kids = list(ext)
+                if kids and kids[0].tag == x('simpleContent'):
+                    (ext,) = list(kids[0])
+                    if ext.tag != x('extension'):
+                        raise Unmodelled('simpleContent child')
+                    data = _qn(ext, ext.get('base'))
+                    # what else sits next to <xs:simpleContent> is reported as it is (a sequence there is illegal XSD)
+                    kids = kids[1:] + list(ext)
+                items, attrs = [], []
+                for k in kids:
+                    if k.tag == x('sequence'):
+                        if items:
+                            raise Unmodelled('two sequences')
+                        for p in k:
+                            if p.tag == x('choice'):
+                                items.append(['choice', [particle(q) for q in p]])
+                            else:
+                                items.append(['one'] + particle(p))
+                    elif k.tag == x('attribute'):
+                        attrs.append(attribute(k))
+                    else:
+                        raise Unmodelled('complexType content %s' % k.tag)
+                key = (tns, el.get('name'))
+                if key in out['complex']:
+                    raise Unmodelled('duplicate complexType')
+                out['complex'][key] = [base, items, attrs, data]
+            elif el.tag == x('element'):
+                out['elements'][(tns, el.get('name'))] = _qn(el, el.get('type'))
+            else:
+                raise Unmodelled('global %s' % el.tag)
+    return out
+
+
+def canon_model_schema_x(s):
+    out = {'simple': {}, 'complex': {}, 'elements': {}, 'imports': set()}
+    for key, base, facets in s['simple']:
+        out['simple'][tuple(key)] = [base, [[f[0], f[1]] for f in facets]]
+    for key, base, items, attrs, data in s['complex']:
+        out['complex'][tuple(key)] = [base, items, attrs, data]
+    for key, tk in s['elements']:
+        out['elements'][tuple(key)] = tk
+    for a, b in s['imports']:
+        out['imports'].add((a, b))
+    return out
+
+
+PRIM_TAGS = {'int': 'int', 'str': 'str', 'bool': 'bool', 'enum': 'enum', 'date': 'date', 'time': 'time', 'dt': 'dt',
+             'dur': 'dur', 'bytes': 'bytes'}
+
+
+def app_json_x(b, app):
+    """app_json + what the member-kind layer needs: the module namespace customised attribute types ended up in
+    (per primitive family) and the xml_choice_group table"""
+    from spyne.model.complex import ComplexModelBase, XmlModifier
+    A = app_json(b, app)
+    mod, choice = {}, []
+    for key, cls in sorted(app.interface.classes.items()):
+        if not key.startswith('{') or not (isinstance(cls, type) and issubclass(cls, ComplexModelBase)):
+            continue
+        for k, v in cls.get_flat_type_info(cls).items():
+            g = v.Attributes.xml_choice_group
+            if g is not None:
+                choice.append([cls.get_namespace(), cls.get_type_name(), k, g])
+            if issubclass(v, XmlModifier):
+                t = xb.prim_of(b, v.type)['t']
+                if not v.type.is_default(v.type) and t != 'enum':
+                    ns = v.type.get_namespace()
+                    if mod.setdefault(t, ns) != ns:
+                        raise core.Infra('two module namespaces for primitive family %s: %r / %r' % (t, mod[t], ns))
+    A['modNs'] = sorted([t, ns] for t, ns in mod.items())
+    A['choice'] = choice
+    return A
+
+
+_ORIG_OCC_KWARGS = xb._occ_kwargs
+
+
+def _occ_kwargs_choice(occ):
+    kw = _ORIG_OCC_KWARGS(occ)
+    if occ.get('choice'):
+        kw['xml_choice_group'] = occ['choice']
+    return kw
+
+
+def build_classes_x(u):
+    xb._occ_kwargs = _occ_kwargs_choice
+    try:
+        return build_classes(u)
+    finally:
+        xb._occ_kwargs = _ORIG_OCC_KWARGS
+
+
+def xmldata_witness_universe():
+    """Money(amount = XmlData(Integer8(ge=3)), cur = XmlAttribute(Unicode))"""
+    occ = lambda **kw: dict({'nillable': True, 'min': 0, 'max': 1}, **kw)
+    amount = {'k': 'prim', 'p': {'t': 'int', 'kind': 'i8', 'ge': '3', 'gt': None, 'le': None, 'lt': None}, 'o': occ(), 'mk': 'data'}
+    cur = {'k': 'prim', 'p': {'t': 'str', 'min': 0, 'max': None, 'pat': None, 'values': []}, 'o': occ(), 'mk': 'attribute'}
+    return {'tns': 'urn:w', 'idx': 6999, 'classes': [{'name': 'Money', 'ns': 'urn:w', 'base': None, 'depth': 0,
+                                                     'own': [['amount', amount], ['cur', cur]]}],
+            'methods': [{'name': 'm0', 'args': [['a0', {'k': 'ref', 'cls': 'Money', 'o': occ()}]], 'rets': []}]}
+
+
+def attr_universe(rng, idx, data_facets=False):
+    """xmlblock's attribute / XmlData universes, plus xml_choice_group on some optional element members (and, where
+    the generator defines their types, customised primitives as XmlData)"""
+    u = xb.gen_universe_attrs(rng, idx)
+    for c in u['classes']:
+        for k, t in c['own']:
+            if data_facets and t.get('mk') == 'data' and rng.random() < 0.5:
+                t['p'] = xb.gen_prim(rng, facets=True)
+    for c in u['classes']:
+        cand = [t for k, t in c['own'] if not t.get('mk') and t['o']['min'] == 0]
+        if len(cand) >= 1 and rng.random() < 0.45:
+            rng.shuffle(cand)
+            ngroups = 1 if len(cand) < 4 or rng.random() < 0.6 else 2
+            pick = cand[:rng.randint(min(2, len(cand)), len(cand))]
+            for i, t in enumerate(pick):
+                t['o']['choice'] = 'g%d' % (i % ngroups)
+    return u
+
+
+def groups_of(u):
+    """class name -> {member: group} over the flattened members"""
+    own = dict((c['name'], c) for c in u['classes'])
+    res = {}
+    for c in u['classes']:
+        g, n = {}, c
+        while n is not None:
+            for k, t in n['own']:
+                if t['o'].get('choice'):
+                    g[k] = (n['name'], t['o']['choice'])
+            n = own.get(n['base']) if n['base'] else None
+        res[c['name']] = g
+    return res
+
+
+def enforce_choice(rng, groups, v):
+    """a conformant instance sets at most one member of every choice group (XSD's reading of xml_choice_group;
+    spyne itself does not check it)"""
+    if isinstance(v, dict) and 'l' in v:
+        return {'l': [enforce_choice(rng, groups, i) for i in v['l']]}
+    if isinstance(v, dict) and 'o' in v:
+        cls, fs = v['o']
+        g = groups.get(cls, {})
+        keep = {}
+        for k, fv in fs:
+            if k in g and fv is not None and not (isinstance(fv, dict) and fv.get('l') == []):
+                keep.setdefault(g[k], []).append(k)
+        chosen = dict((gid, rng.choice(ks)) for gid, ks in sorted(keep.items()))
+        return {'o': [cls, [[k, None if (k in g and chosen.get(g[k]) != k) else enforce_choice(rng, groups, fv)] for k, fv in fs]]}
+    return v
+
+
+def elem_fields(ty):
+    return [(k, t) for k, t in ty['fields'] if not t.get('mk')]
+
+
+def mutate_kinds(rng, b, root_ty, root, groups):
+    """one mutation aimed at attributes, simple content or a choice group; (node, tag) or None"""
+    doc = copy.deepcopy(root)
+    tn = [(ty, n) for ty, n in typed_nodes(b, root_ty, doc) if ty['k'] == 'obj']
+    cands = {}
+    for ty, n in tn:
+        attrs = [(k, t) for k, t in ty['fields'] if t.get('mk') == 'attribute']
+        data = [(k, t) for k, t in ty['fields'] if t.get('mk') == 'data']
+        g = groups.get(ty['name'], {})
+        nil = any(k == XSI_NIL for k, _ in n['a'])
+        present = set(k for k, _ in n['a'])
+        ops = ['attr-undeclared']
+        if any(k in present for k, _ in attrs):
+            ops += ['attr-drop', 'attr-literal', 'attr-qualified']
+        if any(k not in present for k, _ in attrs):
+            ops += ['attr-add']
+        if attrs and not data and not nil:
+            ops += ['attr-as-child']
+        if data and not nil:
+            ops += ['data-literal', 'data-child', 'data-empty']
+        order = [k for k, _ in elem_fields(ty)]
+        names = set(c['n'] for c in n['c'])
+        if g and not nil and all(c['n'] in order for c in n['c']):
+            if any(k in g and k not in names and any(o in names and g[o] == g[k] for o in g) for k in order):
+                ops += ['choice-second']
+            if any(k in g and k in names for k in order):
+                ops += ['choice-same-again']
+            if any(k in g and k not in names and not any(o in names and g[o] == g[k] for o in g) for k in order):
+                ops += ['choice-first']
+        for op in ops:
+            cands.setdefault(op, []).append((ty, n))
+    if not cands:
+        return None
+    if list(cands) == ['attr-undeclared'] and rng.random() < 0.85:
+        return mutate(rng, b, root_ty, root)
+    weights = {'attr-undeclared': 1, 'attr-literal': 4, 'data-literal': 4, 'choice-second': 4}
+    op = rng.choice([o for o in sorted(cands) for _ in range(weights.get(o, 2))])
+    ty, n = rng.choice(cands[op])
+    attrs = [(k, t) for k, t in ty['fields'] if t.get('mk') == 'attribute']
+    data = [(k, t) for k, t in ty['fields'] if t.get('mk') == 'data']
+    g = groups.get(ty['name'], {})
+    present = set(k for k, _ in n['a'])
+    if op == 'attr-drop':
+        k, t = rng.choice([(k, t) for k, t in attrs if k in present])
+        n['a'] = [a for a in n['a'] if a[0] != k]
+        return doc, 'attr-drop:%s' % ('required' if t['o']['min'] > 0 else 'optional')
+    if op in ('attr-literal', 'attr-add'):
+        k, t = rng.choice([(k, t) for k, t in attrs if (k in present) == (op == 'attr-literal')])
+        lit = rng.choice(leaf_literals(rng, t['p']))
+        n['a'] = [a for a in n['a'] if a[0] != k] + [[k, cps(lit)]]
+        return doc, '%s:%s' % (op, t['p']['t'])
+    if op == 'attr-as-child':
+        k, t = rng.choice(attrs)
+        n['c'] = n['c'] + [xb.mk_node(n['ns'], k, text=cps('1'))]
+        return doc, 'attr-as-child'
+    if op == 'attr-qualified':
+        k, t = rng.choice([(k, t) for k, t in attrs if k in present])
+        n['a'] = [[('{%s}%s' % (ty['ns'], k)) if a[0] == k else a[0], a[1]] for a in n['a']]
+        return doc, 'attr-qualified:%s' % ('required' if t['o']['min'] > 0 else 'optional')
+    if op == 'attr-undeclared':
+        n['a'] = n['a'] + [[rng.choice(['zz', 'id2']), cps('1')]]
+        return doc, 'attr-undeclared'
+    if op == 'data-literal':
+        k, t = data[0]
+        lit = rng.choice(leaf_literals(rng, t['p']))
+        n['x'] = cps(lit) if lit != '' else None
+        return doc, 'data-literal:%s' % t['p']['t']
+    if op == 'data-empty':
+        n['x'] = None
+        return doc, 'data-empty:%s' % data[0][1]['p']['t']
+    if op == 'data-child':
+        n['c'] = [xb.mk_node(n['ns'], 'zz', text=cps('1'))]
+        return doc, 'data-child'
+    order = [k for k, _ in elem_fields(ty)]
+    kids = n['c']
+    names = set(c['n'] for c in kids)
+    if op == 'choice-second':
+        cand = [(k, t) for k, t in elem_fields(ty) if k in g and k not in names and any(o in names and g[o] == g[k] for o in g)]
+    elif op == 'choice-first':
+        cand = [(k, t) for k, t in elem_fields(ty) if k in g and k not in names and not any(o in names and g[o] == g[k] for o in g)]
+    else:
+        cand = [(k, t) for k, t in elem_fields(ty) if k in g and k in names]
+    k, t = rng.choice(cand)
+    v = xb.gen_field(rng, t, none_p=0.0)
+    if v is None or not xb.py_conforms(t, v):
+        return None
+    new = xb.ref_encode_field(b, t, v, ty['ns'], k, b.iface['tns'])
+    if not new:
+        return None
+    pos = len([c for c in kids if order.index(c['n']) <= order.index(k)])
+    kids[pos:pos] = new
+    return doc, op
+
+
+def doc_in_domain_x(b, ty, node, vt=None):
+    """doc_in_domain for documents of classes with attribute / data members: their literals too"""
+    if any(k == XSI_TYPE for k, _ in node['a']):
+        return False
+    if ty is None:
+        return all(doc_in_domain_x(b, None, c, vt) for c in node['c'])
+    if ty['k'] == 'obj':
+        byname = dict(ty['fields'])
+        for k, v in node['a']:
+            t = byname.get(k)
+            if t is not None and t.get('mk') == 'attribute':
+                s = uncps(v)
+                if vt and _pkey(t['p']) in vt and s != '' and not canonical_literal(b, t['p'], s):
+                    return False
+                if not lex_domain(xs_type_of(t['p']), s):
+                    return False
+        for k, t in ty['fields']:
+            if t.get('mk') == 'data':
+                s = uncps(node['x']) if node['x'] is not None else ''
+                if vt and _pkey(t['p']) in vt and s != '' and not canonical_literal(b, t['p'], s):
+                    return False
+                if not lex_domain(xs_type_of(t['p']), s):
+                    return False
+        return all(doc_in_domain_x(b, ct, c, vt) for c, ct in match_children(b, ty, node))
+    if ty['k'] == 'prim':
+        return doc_in_domain(b, ty, node, vt)
+    return all(doc_in_domain_x(b, ct, c, vt) for c, ct in match_children(b, ty, node))
+
+
+def model_parallel(ctx, Q, k=4):
+    """ctx.model on k interleaved slices at once (the driver is interpreted; the heavy queries — gen, verdicts — are
+    spread evenly by the interleaving); answers in the order of Q"""
+    import threading
+    if len(Q) < 4 * k:
+        return ctx.model(Q)
+    res, err = [None] * k, []
+
+    def work(i):
+        try:
+            res[i] = ctx.model(Q[i::k])
+        except BaseException as e:          # re-raised in the caller's thread
+            err.append(e)
+    ths = [threading.Thread(target=work, args=(i,)) for i in range(k)]
+    [t.start() for t in ths]
+    [t.join() for t in ths]
+    if err:
+        raise err[0]
+    answers = [None] * len(Q)
+    for i in range(k):
+        for j, a in enumerate(res[i]):
+            answers[i + j * k] = a
+    return answers
+
+
 # ====================================================================================== run
 def classify_compile_error(msg):
     if "}enumeration'" in msg and 'is not a valid value' in msg:
         return 'enumeration-literal-not-in-lexical-space'
     if 'is not a valid value of the atomic type' in msg:
         return 'facet-outside-base-type'
+    if 'does not resolve to a(n) simple type definition' in msg:
+        return 'simple-type-not-defined'
     if "The facet 'enumeration' is not allowed" in msg:
         return 'enumeration-on-boolean'
     if 'It is an error for both' in msg:
@@ -1032,6 +1465,21 @@ def run(ctx):
                     'Integer(gt=1, ge=3, lt=10, le=12) is a legal declaration, but the published schema carries both forms of '
                     'each bound and libxml2 refuses it: %s' % f6['_merge_observed']['error'],
                     {'kind': 'compile', 'universe': merge_witness_universe(), 'observed': f6['_merge_observed']})
+    if not f6['choiceInPlace']:
+        ctx.hit('fact-bad:choiceInPlace')
+        ctx.finding('emitted-invalid:choice-after-other-members',
+                    'one = Integer(xml_choice_group="numbers"); two = ...; punk = Unicode: the published <xs:sequence> is %r — the '
+                    '<xs:choice> after `punk` — while the protocols write members in declaration order; spyne\'s own documents are '
+                    'rejected by validator=lxml' % (f6['_choice_observed']['sequence_of_W'],),
+                    {'kind': 'emit', 'x': True, 'universe': choice_witness_universe(), 'proto': 'xml', 'polymorphic': False,
+                     'method': 'm0', 'rets': [],
+                     'args': [{'o': ['W', [['one', {'i': '1'}], ['two', None], ['punk', {'s': [120]}]]]}]})
+    if not f6['dataTypeDefined']:
+        ctx.hit('fact-bad:dataTypeDefined')
+        ctx.finding('compile:simple-type-not-defined',
+                    'XmlData(Integer8(ge=3)) is a legal declaration, but the simpleContent extension names a simple type the '
+                    'published documents do not define; libxml2 refuses the schema: %s' % f6['_data_observed']['error'],
+                    {'kind': 'compile', 'x': True, 'universe': xmldata_witness_universe(), 'observed': f6['_data_observed']})
     # ---------------------------------------------------------------- proof
     ctx.prove()
 
@@ -1085,8 +1533,8 @@ def run(ctx):
                         {'kind': 'compile', 'universe': u, 'label': label, 'error': why})
 
     # ---------------------------------------------------------------- universes
-    n_univ = 400 if ctx.thorough else 70
-    n_cross = 120 if ctx.thorough else 25
+    n_univ = 400 if ctx.thorough else 60
+    n_cross = 120 if ctx.thorough else 22
     per_method = 4 if ctx.thorough else 2
     n_mut = 16 if ctx.thorough else 10
     configs = [(p, 'lxml', poly) for p in xb.PROTOS for poly in (False, True)] + [('xml', 'soft', False)]
@@ -1294,12 +1742,136 @@ def run(ctx):
                 ctx.hit('doc:%s' % tag.split(':')[0].split('+')[0])
                 ctx.hit('verdict:lxml=%s,soft=%s' % ('accept' if lx else 'reject', soft_outcome(rs)))
             ask(dict(op='verdicts', ty=in_ty, docs=docs, x=fx, **A), impls, 'verdicts', {'universe': u, 'method': mname, 'docs': docs})
+    # ---------------------------------------------------------------- member kinds: attributes, XmlData, choice groups
+    n_attr = 120 if ctx.thorough else 20
+    for ui in range(n_attr):
+        u = attr_universe(rng, 7000 + ui, f6['dataTypeDefined'])
+        groups = groups_of(u)
+        with warnings.catch_warnings():
+            warnings.simplefilter('ignore')
+            b = build_classes_x(u)
+            app0, _ = xb.make_app(b, 'xml', None)
+            xb.finish_built(b, app0)
+        ok, vs = compile_real(app0)
+        ctx.case({'universe': u['idx'], 'kinds': True, 'classes': [(c['name'], c['ns'], c['base']) for c in u['classes']]}, True)
+        kinds_in = set(t.get('mk') or ('choice' if t['o'].get('choice') else 'element') for c in u['classes'] for _, t in c['own'])
+        for k in sorted(kinds_in):
+            ctx.hit('kinds-universe:has-%s' % k)
+        A = app_json_x(b, app0)
+        try:
+            canon = canon_real_schema_x(real_schema(app0)[1], app0.interface.nsmap)
+        except Unmodelled as e:
+            if ok:
+                raise core.Infra('the real schema uses a construct outside the modelled subset: %s' % e)
+            canon = None        # documents libxml2 refuses: only the compile verdict is compared
+        ask(dict(op='genA', **A), (canon, ok), 'genA', {'universe': u})
+        if not ok:
+            kind = classify_compile_error(vs)
+            ctx.hit('compile-refused:' + kind)
+            ctx.finding('compile:' + kind, 'the schema spyne publishes for a universe with attribute / XmlData / choice members is '
+                        'refused by libxml2: %s' % vs, {'kind': 'compile', 'x': True, 'universe': u, 'error': vs})
+            continue
+        with warnings.catch_warnings():
+            warnings.simplefilter('ignore')
+            apps = dict((proto, _make_app(b, proto, 'lxml', False)) for proto in xb.PROTOS)
+        vschema = apps['xml'][0].in_protocol.validation_schema
+        for mname in sorted(b.methods):
+            key, in_ty, out_ty = b.methods[mname]
+            valid_docs = []
+            for ci in range(per_method):
+                call = xb.gen_call(rng, b, mname)
+                if call is None:
+                    ctx.hit('skip:unsatisfiable-facets')
+                    continue
+                args = [enforce_choice(rng, groups, v) for v in call[0]]
+                rets = [enforce_choice(rng, groups, v) for v in call[1]]
+                nat = [xb.to_native(b, t, v) for (_, t), v in zip(in_ty['fields'], args)]
+                xb.set_return(b, mname, out_ty, rets)
+                for proto in xb.PROTOS:
+                    app, server = apps[proto]
+                    replay = {'kind': 'emit', 'x': True, 'universe': u, 'proto': proto, 'polymorphic': False, 'method': mname,
+                              'args': args, 'rets': rets}
+                    ctx.cov['traces_validated_against_impl'] += 1
+                    ctx.hit('emit-kinds:%s' % proto)
+                    ctx.case({'u': u['idx'], 'm': mname, 'p': proto, 'a': args, 'r': rets}, sum(leaves(x) for x in args + rets) >= 2)
+                    # ---- T3: documents of classes with attributes / simple content / choices pass spyne's own schema
+                    try:
+                        data = emit_request(app, key, nat)
+                    except ValueError as e:
+                        if 'All strings must be XML compatible' in str(e):
+                            # XmlData.marshall hands lxml UTF-8 bytes: non-ASCII text cannot be written at all. No document,
+                            # no schema verdict; the defect is the XML codec's (build-XML's switch dataTextUnicode, C01)
+                            ctx.hit('emit:xmldata-non-ascii-not-serialisable')
+                            continue
+                        ctx.finding('emit:request-crash:ValueError', 'serialising a conformant request raises ValueError', replay)
+                        continue
+                    except Exception as e:
+                        ctx.finding('emit:request-crash:%s' % type(e).__name__, 'serialising a conformant request raises %s' % type(e).__name__, replay)
+                        continue
+                    r = xb.run_request(b, server, data)
+                    req_body = body_el(proto, data, app.in_protocol)
+                    if r.fault and 'SchemaValidationError' in r.fault:
+                        ctx.finding('emitted-invalid:choice-after-other-members' if (any(groups.values()) and not f6['choiceInPlace'])
+                                    else 'emitted-invalid:request:%s' % invalid_reason(vschema, req_body),
+                                    'the %s request spyne emits for conformant values (attribute / XmlData / choice members) is '
+                                    'rejected by its own schema (%s)' % (proto, last_error(vschema, req_body)),
+                                    dict(replay, request=data.decode('utf-8', 'replace')))
+                        continue
+                    if r.fault or r.crash:
+                        ctx.hit('emit:request-not-served:%s' % (r.fault or r.crash))
+                        continue
+                    resp_body = body_el(proto, r.out)
+                    if resp_body is None or not vschema.validate(resp_body):
+                        ctx.finding('emitted-invalid:choice-after-other-members' if (any(groups.values()) and not f6['choiceInPlace'])
+                                    else 'emitted-invalid:response:%s' % invalid_reason(vschema, resp_body),
+                                    'the %s response spyne emits for conformant values (attribute / XmlData / choice members) is '
+                                    'invalid against its own schema (%s)' % (proto, last_error(vschema, resp_body)),
+                                    dict(replay, response=(r.out or b'').decode('utf-8', 'replace')))
+                        continue
+                    if proto == 'xml':
+                        for body, ty in ((req_body, in_ty), (resp_body, out_ty)):
+                            nd = xb.node_of(body)
+                            if doc_in_domain_x(b, ty, nd):
+                                valid_docs.append((ty, nd, 'emitted'))
+                            for t2, n2 in typed_nodes(b, ty, nd):
+                                if t2['k'] == 'obj' and n2['a'] and not any(k == XSI_NIL for k, _ in n2['a']):
+                                    ctx.hit('emitted:attribute-present')
+                                if t2['k'] == 'obj' and any(t.get('mk') == 'data' for _, t in t2['fields']) and n2['x'] is not None:
+                                    ctx.hit('emitted:simple-content')
+                                if t2['k'] == 'obj' and any(c['n'] in groups.get(t2['name'], {}) for c in n2['c']):
+                                    ctx.hit('emitted:choice-member')
+            base_docs = [(ty, nd) for ty, nd, _ in valid_docs if ty is in_ty]
+            muts = []
+            for _ in range(n_mut if base_docs else 0):
+                ty, nd = rng.choice(base_docs)
+                m = mutate_kinds(rng, b, ty, nd, groups) if rng.random() < 0.7 else mutate(rng, b, ty, nd)
+                if m is not None:
+                    muts.append((in_ty, m[0], m[1]))
+            group = [(ty, nd, tag) for ty, nd, tag in valid_docs] + muts
+            docs, impls, tys = [], [], []
+            for ty, nd, tag in group:
+                if ty is not in_ty:
+                    continue
+                data = xb.to_bytes(nd)
+                parsed = xb.parse_like_spyne(data, apps['xml'][0].in_protocol)
+                if parsed is None:
+                    continue
+                seen = xb.node_of(parsed)
+                lx = bool(vschema.validate(parsed))
+                indom = doc_in_domain_x(b, ty, seen)
+                docs.append(seen)
+                impls.append({'lxml': lx, 'tag': tag, 'indom': indom})
+                ctx.case({'u': u['idx'], 'm': mname, 'doc': seen}, True)
+                ctx.hit('doc-kinds:%s:%s' % (tag.split(':')[0], 'accept' if lx else 'reject'))
+            if docs:
+                ask(dict(op='validA', docs=docs, **A), impls, 'validA', {'universe': u, 'method': mname, 'docs': docs})
     # ---------------------------------------------------------------- compare with the model
-    answers = ctx.model(Q)
-    wf_of = {}
+    answers = model_parallel(ctx, Q)
+    wf_of, same_of = {}, {}
     for q, (op, impl, case), mod in zip(Q, E, answers):
         if op == 'gen' and 'schema' in mod:
             wf_of[case['universe']['idx']] = mod['wf']
+            same_of[case['universe']['idx']] = mod['sameNs']
     for q, (op, impl, case), mod in zip(Q, E, answers):
         if 'driver_error' in mod:
             raise core.Infra('driver error: %r' % (mod,))
@@ -1314,14 +1886,64 @@ def run(ctx):
             d = schema_diff(canon, canon_model_schema(mod['schema']))
             if d:
                 ctx.disagree('gen', {'universe': case['universe'], 'first_differences': d[:4]}, 'real schema', 'model schema')
+            d = set_diff(canon, mod['set'])
+            if d:
+                ctx.disagree('gen-documents', {'universe': case['universe'], 'first_differences': d[:4]}, 'real schema', 'model schema')
             if mod['compiles'] != ok:
                 ctx.disagree('compiles', {'universe': case['universe']}, ok, mod['compiles'])
+            ctx.hit('schema-documents:%d' % min(len(mod['set']['docs']), 4))
+            if any(dk[0] != dk[1][0] for dk in ((q[0], q[1]) for q in mod['set']['qnames'])):
+                ctx.hit('qname:cross-namespace')
+            if any(len(i) > 1 for _, i in mod['set']['docs']):
+                ctx.hit('imports:several-in-one-document')
+            ctx.hit('chains-same-ns:%s' % mod['sameNs'])
+            if mod['wf'] and not (mod['set']['prefixesOk'] and mod['set']['importsHaveDocs']):
+                # theorems documents_and_imports / no_dangling_qname evaluated on this universe
+                ctx.disagree('wf-implies-documents', {'universe': case['universe']}, True,
+                             [mod['set']['prefixesOk'], mod['set']['importsHaveDocs']])
             ctx.hit('universe-wf:%s' % mod['wf'])
             if mod['wf'] and not (ok and mod['compiles'] and mod['resolvesOk']):
                 # theorems gen_compiles / closed_of_wf evaluated on this universe
                 ctx.disagree('wf-implies-compiles', {'universe': case['universe']}, ok, [mod['compiles'], mod['resolvesOk']])
             if ok and not mod['wf'] and 'label' not in case:
                 ctx.hit('universe-outside-wf')
+        elif op == 'genA':
+            canon, ok = impl
+            if canon is None:
+                if mod['compiles']:
+                    ctx.disagree('compilesA', {'x': True, 'universe': case['universe']}, ok, mod['compiles'])
+                continue
+            cm = canon_model_schema_x(mod['schema'])
+            # spyne also imports, for a plain-typed XmlAttribute, whatever namespace the modifier class carried at that
+            # moment (XmlModifier.resolve_namespace overwrites it with each caller's default namespace): the application's
+            # or a class's. Harmless (the namespace has a document, nothing refers to it) and order dependent: not
+            # modelled. The real documents must carry the model's imports, and beyond them only imports of that kind.
+            extra = canon['imports'] - cm['imports']
+            docs_ns = set(k[0] for kind in ('simple', 'complex', 'elements') for k in canon[kind]) | {case['universe']['tns']}
+            plain_attr_ns = set(c['ns'] for c in case['universe']['classes'] for _, t in c['own']
+                                if t.get('mk') == 'attribute' and xb.prim_is_default(t['p']) and t['p']['t'] != 'enum')
+            if all(a in plain_attr_ns and n in docs_ns for a, n in extra):
+                if extra:
+                    ctx.hit('imports:modifier-namespace-import')
+                canon = dict(canon, imports=canon['imports'] - extra)
+            d = schema_diff(canon, cm)
+            if d:
+                ctx.disagree('genA', {'x': True, 'universe': case['universe'], 'first_differences': d[:4]}, 'real schema', 'model schema')
+            if mod['compiles'] != ok:
+                ctx.disagree('compilesA', {'x': True, 'universe': case['universe']}, ok, mod['compiles'])
+            ctx.hit('kinds-universe-wf:%s' % mod['wfA'])
+            if mod['wfA'] and not (ok and mod['compiles']):
+                # theorem genA_compiles evaluated on this universe
+                ctx.disagree('wfA-implies-compiles', {'x': True, 'universe': case['universe']}, ok, mod['compiles'])
+        elif op == 'validA':
+            for doc, im, mo in zip(case['docs'], impl, mod['ok']):
+                rep = {'kind': 'doc', 'x': True, 'universe': case['universe'], 'method': case['method'], 'doc': doc, 'tag': im['tag'],
+                       'observed': im, 'model': mo}
+                if im['indom']:
+                    if mo != im['lxml']:
+                        ctx.disagree('validA', rep, im['lxml'], mo)
+                else:
+                    ctx.hit('doc-outside-lexical-domain')
         elif op == 'verdicts':
             for doc, im, mo in zip(case['docs'], impl, mod['ok']):
                 rep = {'kind': 'doc', 'universe': case['universe'], 'method': case['method'], 'doc': doc, 'tag': im['tag'],
@@ -1342,7 +1964,7 @@ def run(ctx):
                 else:
                     ctx.hit('doc-outside-lexical-domain')
                 # T3: on the common form the two validators of the real code reach the same verdict
-                if mo['commonGood'] and im['indom'] and not im['values'] and wf_of.get(case['universe']['idx']):
+                if mo['commonGood'] and im['indom'] and not im['values'] and wf_of.get(case['universe']['idx']) and same_of.get(case['universe']['idx']):
                     ctx.hit('common-form:%s' % ('accept' if im['lxml'] else 'reject'))
                     ctx.cov['common_form_docs'] = ctx.cov.get('common_form_docs', 0) + 1
                     if im['lxml'] != (im['soft'] == 'ok'):
@@ -1436,7 +2058,7 @@ def replay(ctx, obj):
         return 0
     with warnings.catch_warnings():
         warnings.simplefilter('ignore')
-        b = build_classes(u)
+        b = build_classes_x(u) if obj.get('x') else build_classes(u)
         app0, _ = xb.make_app(b, 'xml', None)
         xb.finish_built(b, app0)
     ok, vs = compile_real(app0)
@@ -1469,6 +2091,10 @@ def replay(ctx, obj):
         print('document:', data.decode('utf-8', 'replace'))
         parsed = xb.parse_like_spyne(data, app_l.in_protocol)
         lx = bool(app_l.in_protocol.validation_schema.validate(parsed))
+        if obj.get('x'):
+            print('lxml verdict:', lx, '' if lx else last_error(app_l.in_protocol.validation_schema, parsed))
+            print('model       :', ctx.model([dict(op='validA', docs=[xb.node_of(parsed)], **app_json_x(b, app0))])[0])
+            return 0
         rs = xb.run_request(b, server_s, data)
         print('lxml verdict:', lx, ' soft verdict:', soft_outcome(rs))
         mod = ctx.model([dict(op='verdicts', ty=in_ty, docs=[xb.node_of(parsed)], **app_json(b, app0))])[0]
